@@ -32,6 +32,13 @@ claim('C06', 'recording post-condition on analysis.freq / observation of Panel.f
       'pairs with constructed spectra (spread, clustered within 0.1 rad/s, omega~1, repeated) and on package matrices.',
       'scipy.linalg.eigh reference; dense reduced_dof=True raises for every input and is counted as a rejection', '4/C06')
 
+claim('C10', 'ctypes probes on a shared object compiled from the working tree lib sources, judged by exact rational (fractions.Fraction) Bardell algebra',
+      'All 30 functions and two derivatives at 64 rational abscissae and several flag sets; the six full-interval integral tables exhaustively over all 900 ordered index '
+      'pairs (exact zeros must be 0.0, others within 2e-14 relative of the exact rational); the six sub-interval and five mapped-argument tables over all pairs at sampled '
+      'rational arguments incl. degenerate and edge intervals, additivity and I(-1,1)=full table; Gauss-Legendre n=2..64 by exact moments of the returned doubles; '
+      'trapezoid/Simpson point sets on random grids.',
+      'exact arithmetic of fractions.Fraction; the defining formula in theory/func/bardell/bardell.py; sub-interval/mapped tables are sampled in their real arguments', '4/C10')
+
 ALL = ['C%02d' % i for i in range(1, 21)]
 PENDING_REASON = 'check not built yet in this round (runtime-monitoring plan in DESIGN.md section 4); will be claimed once its monitor runs silent on the unchanged tree'
 
